@@ -13,7 +13,7 @@ RULE = ("structured generator (lengths 0..capacity digits, digit patterns 0/1/B-
         "all alias patterns, Knuth-D corner families); non-trivial = distinct line whose result is not an error")
 
 BIN = ["bn_add", "bn_sub", "bn_mul", "bn_mul_basic", "bn_mul_comba", "bn_mul_karat", "bn_div"]
-UN = ["bn_sqr", "bn_sqr_comba", "bn_sqr_karat", "bn_dbl", "bn_hlv", "bn_neg", "bn_abs", "bn_copy"]
+UN = ["bn_sqr", "bn_sqr_comba", "bn_sqr_basic", "bn_sqr_karat", "bn_dbl", "bn_hlv", "bn_neg", "bn_abs", "bn_copy"]
 DIG = ["bn_add_dig", "bn_sub_dig", "bn_mul_dig", "bn_div_dig", "bn_div_rem_dig"]
 LOW1 = ["add1", "sub1", "mul1", "lsh1", "lshb", "rsh1", "rshb", "div1", "sqrn"]
 LOW2 = ["addn", "subn", "muln"]
